@@ -264,11 +264,22 @@ def classify_harness(res):
     failed = []
     undecided = []
     covers = {}
+    canary_ok = canary_bad = 0
     for c in res.get("checks", []):
         st = c.get("status")
         cat = c.get("category", "")
         desc = c.get("description", "")
+        if "CANARY:" in desc:
+            # reachability witness for harnesses whose cover goals CBMC cannot evaluate (status ERROR on very large
+            # formulas): an assertion placed after all real checks that MUST fail; if it holds the harness is vacuous
+            if st == "Failure":
+                canary_ok += 1
+            elif st != "Unreachable" or True:
+                canary_bad += 1 if st != "Failure" else 0
+            continue
         if cat == "cover":
+            if st == "Error":
+                continue
             # CBMC may duplicate a cover statement (code duplication after branches): a cover is
             # satisfied if any of its instances is.
             key = (desc, c.get("location", {}).get("line"))
@@ -284,6 +295,10 @@ def classify_harness(res):
     cov_sat = len([k for k, v in covers.items() if v])
     cov_unsat = len([k for k, v in covers.items() if not v])
     status = res.get("status")
+    if canary_bad:
+        return "unknown", failed, (cov_sat, cov_unsat), "vacuity guard: %d canary assertion(s) did not fail (precondition contradictory or end of harness unreachable)" % canary_bad
+    if canary_ok and not failed and not undecided and not cov_unsat:
+        return "proved", [], (cov_sat + canary_ok, cov_unsat), ""
     if status == "Success" and failed and not undecided:
         # #[kani::should_panic] harness: Kani reports Success exactly when the expected panic is the only failure
         failed = []
